@@ -54,7 +54,7 @@ def judge_stub(res, text, tmod, m, records, k, cfgname, flag, wit):
     if se.syntax_error:
         bad("stub-does-not-parse", se.syntax_error)
         return keys
-    collided = {loc.split()[-1] for kind, _d, loc in se.events if kind == "typeddict-class-name-collision"}
+    collided = se.collided_closure()
     for kind, detail, loc in se.events:
         if kind == "typeddict-class-name-collision":
             res.count("stubs_with_typeddict_class_name_collision")  # matters for C01 only where a value is then rejected
